@@ -89,7 +89,13 @@ def c131(ctx):
     d = P.defs(f)
     for pt, rv in ret_assignments(f):
         if rv.get("r") == "call":
-            kinds["poison" if (rv["callee"] or "").endswith("ManifestIterator::poison") else "other"].append(pt)
+            ck_ = rv["callee"] or ""
+            if ck_.endswith("ManifestIterator::poison"):
+                kinds["poison"].append(pt)
+            elif re.search(r"FromResidual.*::from_residual$", ck_) and f.locals[0].startswith("core::option::Option<"):
+                kinds["none"].append(pt)        # `x?` on an Option in a function that returns Option: the None of x is handed on
+            else:
+                kinds["other"].append(pt)
         elif rv.get("r") == "agg" and rv.get("variant") == "None":
             kinds["none"].append(pt)
         elif rv.get("r") == "agg" and rv.get("variant") == "Some":
@@ -128,6 +134,10 @@ def c131(ctx):
             eof.add((b.idx, "sw:0"))
         if any(x["k"] == "field" and x["f"] == "file" for x in srcs) and any(x["k"] == "discr" for x in srcs) and not any(x["k"] == "call" for x in srcs):
             eof.add((b.idx, "sw:0"))
+        calls_ = [x["callee"] for x in srcs if x["k"] == "call"]
+        if any(x["k"] == "field" and x["f"] == "file" for x in srcs) and any(x["k"] == "discr" for x in srcs) and calls_ and \
+                all(re.search(r"Option::(as_mut|as_ref|as_deref_mut)$|Try>?::branch$", c_) for c_ in calls_) and any(c_.endswith("branch") for c_ in calls_):
+            eof.add((b.idx, "sw:1"))        # `self.file.as_mut()?`: the Break edge hands on the None of the closed iterator
         d_ = b.term.get("discr") or {}
         dty = None
         if d_.get("k") in ("copy", "move"):
@@ -549,20 +559,9 @@ def c137(ctx):
                   "the reader splits with lines(), which also strips a trailing carriage return, but Edit::check_str only looks for %s: a string "
                   "ending in \\r is written, read back one character short, and fails its checksum on the next open" % sorted(chars))
     # (c) the action characters the reader dispatches on cannot be info keys
-    actions = set()
-    for b in rd.blocks:
-        for st in b.st:
-            if st["s"] == "=" and st["rv"]["r"] == "bin" and st["rv"]["op"] == "Eq":
-                o = st["rv"]["b"]
-                if o.get("k") == "const" and o["c"].get("ty") == "char" and o["c"].get("v") in (43, 45):
-                    actions.add(o["c"]["v"])
-    refused = set()
-    for b in inf.blocks:
-        for st in b.st:
-            if st["s"] == "=" and st["rv"]["r"] == "bin" and st["rv"]["op"] in ("Eq", "Ne"):
-                o = st["rv"]["b"]
-                if o.get("k") == "const" and o["c"].get("ty") == "char" and any(x["k"] == "param" and x["i"] == 2 for x in P.origins(inf, st["rv"]["a"])):
-                    refused.add(o["c"]["v"])
+    is_char = lambda fn_, o_: o_.get("k") in ("copy", "move") and not o_["pl"]["p"] and fn_.locals[o_["pl"]["l"]] == "char"
+    actions = {t_["value"] for t_ in K.value_tests(rd, is_char) if t_["value"] in (43, 45)}
+    refused = {t_["value"] for t_ in K.value_tests(inf, lambda fn_, o_: any(x["k"] == "param" and x["i"] == 2 for x in P.origins(fn_, o_)))}
     ctx.floor(R, "reader action characters", len(actions), 2)
     ctx.check(R, inf, "action-characters-not-info-keys", actions <= refused,
               "Edit::info refuses the keys %s, which the reader dispatches on as add / remove" % sorted(chr(c) for c in actions),
